@@ -15,21 +15,22 @@ MANIFEST = dict(
          "40-bit UL/DL MBR and GBR (hi32*256+lo8 = value proved for every value < 2^40), QFI, RQI, PPI, correlation id; measurement "
          "method and information, reporting-trigger bits, volume threshold/quota flags and the volumes the flags select; BAR "
          "suggested packet count; invariant under permutation of child IEs. Periodic registration: proved for Create URR (registered "
-         "with period p iff PERIO is in the triggers, and then p is the IE's period; Remove URR unregisters). Two parts of the property "
-         "are REFUTED with witnesses and proved only under the excluding hypothesis: the BAR Downlink Data Notification Delay (a "
-         "time.Duration in ns cast to uint8) and the registration after Update URR (never touched). The model is tied to the source "
+         "with period p iff PERIO is in the triggers, and then p is the IE's period; Remove URR unregisters). One part of the property "
+         "is REFUTED with a witness and proved only under the excluding hypothesis: the registration after Update URR (never touched; "
+         "recorded finding). The BAR delay defect found by this check was repaired in go-upf 08f4372 and the model follows the "
+         "repaired clause. The model is tied to the source "
          "on every run by regenerated constants/clause shapes (T-gen) and by running the REAL Gtp5g methods and the REAL periodic "
          "server over SimKernel on generated IEs and histories (requests compared inside Coq at tree and octet level; query sets of "
          "injected ticks compared with the model's registration table; reference decoder and registration spec applied as monitors).",
     note="Modelled, not verified: go-pfcp accessors, go-nl serialisation, the periodic server's ticker goroutines (ticks are injected "
          "through its event channel). Not in the property's list and decoded leniently: URR_MEASUREMENT_PERIOD (Duration squeezed into "
          "u32, TODO in the code); URR_MEASUREMENT_INFO is sent as 8 octets and read as 1 (equal on little-endian hosts only). "
-         "Findings (known_findings.txt): bar_delay, perio_update.",
+         "Finding (known_findings.txt): perio_update.",
     technique="Coq proof (decoder-of-encoder, order-freeness, registration iff PERIO) + refutation witnesses + generated tables/clauses + "
               "differential run of the real driver and periodic server over SimKernel vs vm_compute model + monitors",
     design="4/C03",
-    partial="BAR delay and periodic registration after Update URR are refuted (C03_bar_delay_refuted, C03_perio_update_refuted); the "
-            "corresponding theorems are proved under the excluding hypotheses (C03_create_bar_partial, C03_update_bar_partial, C03_perio_create_partial)")
+    partial="periodic registration after Update URR is refuted (C03_perio_update_refuted); the registration theorem is proved for "
+            "Create/Remove URR only (C03_perio_create_partial, C03_perio_create_remove)")
 
 REQUIRES = ["Bytes", "Nlattr", "PfcpIe3", "RulesGen", "RulesSpec", "RulesSpec3", "RulesPdrFar", "RulesQerUrrBar"]
 OPS = ["create_qer", "update_qer", "create_urr", "update_urr", "remove_urr", "create_bar", "update_bar"]
@@ -162,10 +163,6 @@ class Gen:
         return {"op": op, "ies": ies}
 
 
-def has_delay(step):
-    return any(x["k"] == "delay" and x["v"] != 0 for x in step["ies"])
-
-
 def gen_cases(ctx):
     rnd = random.Random(ctx.seed)
     g = Gen(rnd)
@@ -197,7 +194,7 @@ def gen_cases(ctx):
         single({"op": "create_urr", "ies": ies}, True, ticks=[10] if b == 0 else [])
     for d in range(256) if thorough else [0, 1, 2, 3, 127, 128, 129, 254, 255]:
         st = {"op": rnd.choice(["create_bar", "update_bar"]), "ies": [{"k": "barid", "v": 1}, {"k": "delay", "v": d}, {"k": "count", "v": d}]}
-        single(st, d == 0, full=None if d == 0 else "bar_delay")
+        single(st, True)
     for s in SEIDS:
         single({"op": "create_qer", "ies": [{"k": "qerid", "v": 1}, {"k": "qfi", "v": 9}]}, True)
         single({"op": "update_urr", "ies": [{"k": "urrid", "v": 1}, {"k": "info", "v": 1}]}, True)
@@ -228,11 +225,7 @@ def gen_cases(ctx):
             per = [x["v"] for x in st["ies"] if x["k"] == "period"]
             single(st, wf, ticks=per[:1])
         else:
-            st = g.bar(op, wf)
-            if wf and has_delay(st):
-                single(st, False, full="bar_delay")
-            else:
-                single(st, wf)
+            single(g.bar(op, wf), wf)
     # histories on the periodic registration (all steps well-formed)
     def hist(steps, ticks, sig=None):
         for st in steps:
@@ -328,7 +321,7 @@ Definition step_agrees (seid : N) (s : tstep) : bool :=
 Definition step_wf (s : tstep) : bool :=
   let '(op, ies, _, _, _, _, _) := s in
   if op <? 2 then wf_qer ies else if op =? 2 then wf_urr true ies else if op =? 3 then wf_urr false ies
-  else if op =? 4 then true else wf_bar_nodelay ies.
+  else if op =? 4 then true else wf_bar ies.
 Definition step_req_ok (seid : N) (s : tstep) : bool :=
   let '(op, ies, _, impl, _, _, _) := s in
   match impl with
@@ -425,7 +418,7 @@ def libdec_ok(step, seid, r):
         w = {"id": val("urrid"), "method": val("method") or 0, "info": val("info"),
              "trigger": int.from_bytes(bytes.fromhex(t["hex"]), "little") if t else 0}
     else:
-        w = {"id": val("barid"), "count": val("count")}
+        w = {"id": val("barid"), "count": val("count"), "delay": val("delay")}
     for k, v in w.items():
         if d.get(k) != v:
             return False, "%s: decoded %r, IE has %r" % (k, d.get(k), v)
@@ -448,7 +441,7 @@ def run(ctx, replay=None):
         for c in cases:
             c.setdefault("perio_mon", len(c["steps"]) > 0 and all(s["op"].endswith("urr") for s in c["steps"]) and bool(c["ticks"]))
             for s in c["steps"]:
-                s.setdefault("full", "bar_delay" if s["op"].endswith("bar") else None)
+                s.setdefault("full", None)
     coverage = {"obligations": len(obl["theorems"]), "discharged": len(obl["theorems"]) if obl["compiled"] else 0,
                 "checker_cmd": "make -f Makefile.coq (coqc 8.16.1, full .vo build) + coqc props/C03.v (Print Assumptions)",
                 "trusted_base": common.TRUSTED_BASE + ["SimKernel (harness/overlay/internal/forwarder/verif_sim.go) and perio.VerifTick (tick injection)"],
@@ -538,7 +531,7 @@ def run(ctx, replay=None):
                         "5-child QER / 5-child URR / 3-child BAR samples; random single operations (75% well-formed, 25% perturbed: duplicates, "
                         "missing ids, malformed IEs, 1- and 4-octet triggers, zero period) and URR histories create / create+update / "
                         "create+remove with ticks of the registered and another period; non-trivial = every step well-formed by "
-                        "wf_qer/wf_urr/wf_bar_nodelay (computed in Coq); distinct by full case content")
+                        "wf_qer/wf_urr/wf_bar (computed in Coq); distinct by full case content")
     coverage["per_op"] = {op: sum(1 for c in cases for s in c["steps"] if s["op"] == op) for op in OPS}
     coverage["samples"] = [dict(strip(c), impl_requests=[main_request(s, o)[0] for s, o in zip(c["steps"], r["steps"])], ticks_seen=r["ticks"])
                            for c, r in list(zip(cases, impl))[-3:-1]]
